@@ -192,8 +192,10 @@ func solvePart(fe *FnEnc, o *Obl, part int, dir string, timeout, seed int, escal
 			s, st, out string
 			secs       float64
 		}
-		ch := make(chan ans, 2)
-		racers := []string{"z3-new/ematch", "z3/ematch"}
+		ch := make(chan ans, 3)
+		// z3 4.8.12 in its default configuration decides some quantified goals in under a second that neither E-matching
+		// run finishes (types.Index.AddDesc#loop4.inv:other-subjects-kept.preserve#2)
+		racers := []string{"z3-new/ematch", "z3/ematch", "z3"}
 		t1 := full
 		rctx, rcancel := context.WithCancel(context.Background())
 		defer rcancel()
